@@ -189,6 +189,8 @@ def run_case(spec):
         ratio = ""
         if n_ok < n_tot and not np.isnan(g) and abs(g - mean * n_tot / n_ok) <= 1e-6 * abs(g):
             ratio = ":mean-divided-by-coverage"
+        elif spec["cls"].startswith("billing") and minutes == 60 and all(b[4] != 24 and b[3] * 2 > b[4] and b[3] <= 12 and np.isnan(b[1]) for b in bad_mean):
+            ratio = ":short-dst-day-judged-against-half-of-24-readings"
         elif minutes != 60 and mh:
             ratio = ":meter-reads-at-another-hour"
             complete = "any-day"
